@@ -248,6 +248,10 @@ def _case(draw, pid, tier):
 
 
 def strategy(pid, tier):
+    if pid == "C08":
+        from . import e2_lazy
+
+        return st.one_of(_case(pid, tier), e2_lazy.enum_case(tier))
     return _case(pid, tier)
 
 
@@ -1074,6 +1078,11 @@ def execute(case, focus=None):
     if case.get("e7"):
         cfg = case["e7"]
         return e7_check(run, case, cfg["hashseeds"], cfg["paddings"], cfg["order"])
+    if case.get("kind") == "enum":
+        from . import e2_lazy
+
+        e2_lazy.execute_enum(run, case, _m)
+        return run
     slots = [Slot(spec) for spec in case["inputs"]]
     regime = case["regime"]
     for idx, op in enumerate(case["ops"]):
